@@ -635,7 +635,7 @@ class Verifier:
         from . import heapmodel as _HM
         for _n in ('cached', 'old_cached', 'same_value', 'value_is', 'succ', 'same_node', 'in_done', 'forall_nodes',
                    'reads', 'computed', 'holds_f', 'old_holds_f', 'in_map', 'cell_at', 'in_set', 'old_in_set',
-                   'has_formula', 'old_has_formula', 'same_formula', 'is_range', 'edge', 'old_edge', 'local', 'pre_in_set',
+                   'has_formula', 'old_has_formula', 'same_formula', 'is_range', 'is_unbounded', 'edge', 'old_edge', 'local', 'pre_in_set',
                    'pre_same_fields'):
             self.world.external['pyvc.heapspec.' + _n] = Builtin(_n, getattr(_HM, 'sx_' + _n))
         from . import records as _REC
